@@ -306,7 +306,8 @@ def worst_entries(name, A, B, nv, case, s, k, top=3):
 
 # ------------------------------------------------------------------ running pairs, bisection
 def run_lines(hb, wd, lines, tag="cases"):
-    rc, outs, err = core.run_harness(hb, lines, wd, timeout=1200, tag=tag)
+    rc, outs, err = core.run_harness(hb, lines, wd, timeout=1200, tag=tag, max_restarts=8,
+                                     env=dict(H_C02_ALARM=os.environ.get("H_C02_ALARM", "60" if os.environ.get("VERIF_TIER", "quick") != "thorough" else "600")))
     return [parse_result(o) for o in outs]
 
 def _tri_coords(maps, tindex):
@@ -467,7 +468,7 @@ def gen_kernel_case(rng, op=None):
 
 def move_kernel_args(op, args, R, t, s):
     kinds, _ = KERNELS[op]
-    return [models.move_points([a], R, t, s)[0] if kd == "p" else models.apply_R(R, a) for kd, a in zip(kinds, args)]
+    return [models.move_points([a], R, t, s)[0] if kd == "p" else (models.apply_R(R, a) if R else tuple(a)) for kd, a in zip(kinds, args)]
 
 def kernel_compare(op, f0, f1, R, s, size, rel=1e-9):
     """f0: outputs on the reference args, f1 on the moved/scaled ones. -> None or (index, expected, got)"""
@@ -573,7 +574,7 @@ def _is_tie(detail):
     m = re.findall(r"dist(?:/s)? ([0-9.eE+-]+)\)", detail)
     return len(m) == 2 and core.close(float(m[0]), float(m[1]), 1e-9)
 
-def run_kernel_metamorphic(ck, hb, n, transforms, label):
+def run_kernel_metamorphic(ck, hb, n, transforms, label, rel=1e-9):
     """real C++ kernels on random arguments and on the moved/scaled arguments.  transforms(rng) -> (R,t,s)"""
     cases = []; lines = []
     for _ in range(n):
@@ -589,7 +590,7 @@ def run_kernel_metamorphic(ck, hb, n, transforms, label):
         key = "%s/%s" % (KNAMES[op], cls); dist[key] = dist.get(key, 0) + 1
         r = None
         if z0 is None or z1 is None or z0 != z1: r = (-2, z0, z1)
-        elif z0[0] == 0: r = kernel_compare(op, f0, f1, R, s, size)
+        elif z0[0] == 0: r = kernel_compare(op, f0, f1, R, s, size, rel)
         if r is not None:
             bad += 1
             ck.violation("%s kernel %s (%s)" % (label, KNAMES[op], cls),
